@@ -40,7 +40,7 @@ FUNCTIONS = [
     "tf_pwa/phasespace.py:PhaseSpaceGenerator.flatten_mass", "tf_pwa/angle.py:LorentzVector.rest_vector", "tf_pwa/angle.py:LorentzVector.boost", "tf_pwa/angle.py:LorentzVector.neg",
 ]
 ASSUMPTIONS = [
-    "tf.random.uniform returns arbitrary reals in [0,1) (nondeterministic stub); cos/sin of the azimuth 2 pi u are uninterpreted with cos^2+sin^2=1",
+    "tf.random.uniform returns arbitrary reals in (0,1) (nondeterministic stub; the end point 0, drawn with probability 2^-53, puts an intermediate mass exactly on threshold where get_p divides 0 by 0 for massless daughters: observation, outside the claim); cos/sin of the azimuth 2 pi u are uninterpreted with cos^2+sin^2=1",
     "Lorentz-invariant phase space has the measure prod_i q_i dM_i dOmega_i (trusted mathematical lemma); accepted density = proposal density x acceptance probability",
     "masses are non-negative with positive Q-value; intermediate masses inside [sum of their daughters, parent minus the rest]",
     "boost velocities satisfy the code's guard beta^2 > 1e-14 (daughter systems not produced exactly at rest)",
@@ -54,7 +54,7 @@ def bounds(tier):
 
 
 def jobs(tier, seed):
-    out = [("momentum", 2), ("momentum", 3), ("step_lemmas",), ("weight", 3), ("weight", 4), ("weight", 5), ("flat", 3), ("flat", 4), ("flat", 5), ("count",), ("angles",)]
+    out = [("momentum", 2), ("step",), ("step_lemmas",), ("monotone",), ("weight", 3), ("weight", 4), ("weight", 5), ("flat", 3), ("flat", 4), ("flat", 5), ("count",), ("angles",)]
     if tier == "thorough":
         out += [("weight", 6), ("flat", 6)]
     return out
@@ -65,6 +65,15 @@ def _sym_random():
 
     symtf.STATE.symbolic_random = True
     symtf.reset_state()
+
+
+def _open_variates():
+    """variates strictly inside (0,1): u = 0 exactly (probability 2^-53 per draw) puts an intermediate
+    mass on its threshold, where two massless daughters give 0/0 in get_p; stated as an assumption"""
+    from symx import symtf
+
+    for v in symtf.STATE.random_log:
+        S.ctx().fact(T.lt(T.ZERO, v))
 
 
 def _masses(n):
@@ -93,8 +102,8 @@ def job_momentum(ss, n):
     m0, ms = _masses(n)
     gen = PhaseSpaceGenerator(m0, ms)
     mass = gen.generate_mass(1)
-    # intermediate masses: the code's own proposal (b - a) u + a with u in [0,1) is inside the range by construction
     ps = gen.generate_momentum(mass, 1)
+    _open_variates()
     F = facts()
     pay = _pay("momentum", n=n)
     ss.witness("ps.reach[n=%d]" % n, F)
@@ -103,20 +112,43 @@ def job_momentum(ss, n):
         vals += [SymReal(term_of(e)) for e in p.arr.reshape(-1)]
     vals = simp(F, *vals)
     P = [vals[4 * i : 4 * i + 4] for i in range(len(ps))]
-    # returned order: particle m_mass[-2-i] ... ; identify by position: ps[k] pairs with masses in the generator's order
-    order = [ms[n - 2 - i] for i in range(n - 1)] + [ms[n - 1]]
-    # generate_momentum_i returns [new particle, recoil/boosted previous...]: final list = [m_1, ..., ] resolved by on-shell check against each mass
     for k, p in enumerate(P):
         m2 = p[0] * p[0] - p[1] * p[1] - p[2] * p[2] - p[3] * p[3]
-        cands = [T.cross_ne(m2.t, (x * x).t) for x in ms]
-        # the k-th returned particle is the daughter with index expected by the documented order (first = m_1 ... last = m_n)
-        ss.prove("ps.on_shell[n=%d,%d]" % (n, k), F, far(m2.t, (ms[k] * ms[k]).t, 0), key="ps.on_shell", payload=pay, timeout=120, describe="E^2 - |p|^2 = m_k^2 for the k-th returned particle")
+        ss.prove("ps.on_shell[n=%d,%d]" % (n, k), F, far(m2.t, (ms[k] * ms[k]).t, 0), key="ps.on_shell", payload=pay, timeout=60, describe="E^2 - |p|^2 = m_k^2 for the k-th returned particle")
         ss.prove("ps.energy_positive[n=%d,%d]" % (n, k), F, T.lt(p[0].t, T.ZERO), key="ps.on_shell", payload=pay, timeout=60)
     tot = [sum([p[i] for p in P[1:]], P[0][i]) for i in range(4)]
     tgt = [m0.t, T.ZERO, T.ZERO, T.ZERO]
     for i in range(4):
-        ss.prove("ps.momentum_sum[n=%d,%d]" % (n, i), F, far(tot[i].t, tgt[i], 0), key="ps.momentum_sum", payload=pay, timeout=120, describe="sum of momenta = (M, 0, 0, 0)")
+        ss.prove("ps.momentum_sum[n=%d,%d]" % (n, i), F, far(tot[i].t, tgt[i], 0), key="ps.momentum_sum", payload=pay, timeout=60, describe="sum of momenta = (M, 0, 0, 0)")
     ss.mutant("ps.mutant[n=%d]" % n, F, far(tot[0].t, T.add(m0.t, T.ONE), 0))
+
+
+def job_step(ss):
+    """one step of the sequential decay with symbolic (m0, m1, m2): the new particle and the
+    recoil system are on shell and add up to (m0,0,0,0) - the induction step for any n"""
+    import tf_pwa.phasespace as phsp
+
+    _sym_random()
+    m0, m1, m2 = S.real("M"), S.real("m1"), S.real("m2")
+    S.assume(m1 >= 0)
+    S.assume(m2 >= 0)
+    S.assume(m0 - m1 - m2 > 0)
+    gen = phsp.PhaseSpaceGenerator(3.0, [1.0, 1.0])
+    ps = gen.generate_momentum_i(tensor_of([m0]), tensor_of([m1]), tensor_of([m2]), 1, [])
+    _open_variates()
+    F = facts()
+    pay = _pay("step_i")
+    vals = simp(F, *[SymReal(term_of(e)) for p in ps for e in p.arr.reshape(-1)])
+    new, rec = vals[:4], vals[4:8]
+    m2n = new[0] * new[0] - new[1] * new[1] - new[2] * new[2] - new[3] * new[3]
+    m2r = rec[0] * rec[0] - rec[1] * rec[1] - rec[2] * rec[2] - rec[3] * rec[3]
+    ss.prove("ps.step.new_on_shell", F, far(m2n.t, (m2 * m2).t, 0), key="ps.step", payload=pay, timeout=60)
+    ss.prove("ps.step.recoil_on_shell", F, far(m2r.t, (m1 * m1).t, 0), key="ps.step", payload=pay, timeout=60)
+    for i in range(1, 4):
+        ss.prove("ps.step.momentum_balance[%d]" % i, F, far((new[i] + rec[i]).t, T.ZERO, 0), key="ps.step", payload=pay, timeout=60)
+    ss.prove("ps.step.energy_conservation", F, far((new[0] + rec[0]).t, m0.t, 0), key="ps.step", payload=pay, timeout=120,
+             describe="sqrt(q^2+m1^2) + sqrt(q^2+m2^2) = m0 with q = get_p(m0, m1, m2)", want_smt2=True)
+    ss.witness("ps.step.reach", F)
 
 
 def job_step_lemmas(ss):
@@ -152,8 +184,34 @@ def job_step_lemmas(ss):
     # (a boost preserves the invariant mass: decided under C11, boost.mass_invariant)
 
 
+def job_monotone(ss):
+    """get_p(M, a, b) grows with M and falls with a (b fixed), on the physical region"""
+    import tf_pwa.phasespace as phsp
+
+    M, Mx, a, ax, b = S.real("M"), S.real("Mx"), S.real("a"), S.real("ax"), S.real("b")
+    for x in (a, ax, b):
+        S.assume(x >= 0)
+    S.assume(M > 0)
+    S.assume(M >= a + b)
+    S.assume(Mx >= M)
+    S.assume(ax <= a)
+    q = SymReal(term_of(phsp.get_p(tensor_of([M]), tensor_of([a]), tensor_of([b])).arr[0]))
+    qx = SymReal(term_of(phsp.get_p(tensor_of([Mx]), tensor_of([ax]), tensor_of([b])).arr[0]))
+    F = facts()
+    q, qx = simp(F, q, qx)
+    pay = _pay("monotone")
+    ss.prove("ps.get_p.monotone", F, T.gt(q.t, qx.t), key="ps.get_p.monotone", payload=pay, timeout=400, describe="q(M,a,b) <= q(M',a',b) for M' >= M, a' <= a", want_smt2=True)
+    ss.prove("ps.get_p.nonnegative", F, T.lt(q.t, T.ZERO), key="ps.get_p.monotone", payload=pay, timeout=60)
+    # value: 4 M^2 q^2 = lambda(M^2, a^2, b^2)
+    lam = (M * M - (a + b) * (a + b)) * (M * M - (a - b) * (a - b))
+    ss.prove("ps.get_p.value", F, far((4 * M * M * q * q).t, lam.t, 0), key="ps.get_p.value", payload=pay, timeout=60)
+    ss.witness("ps.get_p.reach", F)
+    ss.mutant("ps.get_p.mutant", F, T.lt(q.t, qx.t))
+
+
 def job_weight(ss, n):
-    """weight = importance * prod_i q_i / w_max with q_i <= q_i^max factor by factor"""
+    """weight = importance * prod_i q_i / w_max; every factor's arguments are ordered against the arguments
+    set_decay used for w_max, so q_i <= q_i^max by the monotonicity lemma (ps.get_p.monotone)"""
     import tf_pwa.phasespace as phsp
 
     _sym_random()
@@ -178,20 +236,22 @@ def job_weight(ss, n):
         imp = gen.mass_importances(mass)
     finally:
         phsp.get_p = real_get_p
+    _open_variates()
     F = facts()
     pay = _pay("weight", n=n)
     sc = lambda x: SymReal(term_of(x.arr.reshape(-1)[0] if hasattr(x, "arr") else x))
     ss.concrete("ps.weight.factor_count[n=%d]" % n, len(max_calls) == len(w_calls) == n - 1, key="ps.weight.structure", payload=dict(kind="weight_struct", n=n),
                 describe="set_decay and get_weight multiply the same number (n-1) of two-body momenta")
     qs, qmax = [], []
-    for (M, ma, mb, r), (Mx, max_, mbx, rx) in zip(w_calls, max_calls):
+    for i, ((M, ma, mb, r), (Mx, max_, mbx, rx)) in enumerate(zip(w_calls, max_calls)):
+        Mt, at, bt, Mxt, axt, bxt = sc(M), sc(ma), sc(mb), sc(Mx), sc(max_), sc(mbx)
+        ss.prove("ps.weight.parent_below_max[n=%d,%d]" % (n, i), F, T.gt(Mt.t, Mxt.t), key="ps.weight.ordering", payload=pay, timeout=60, describe="parent mass of factor i <= the maximal one used in w_max")
+        ss.prove("ps.weight.daughter_above_min[n=%d,%d]" % (n, i), F, T.lt(at.t, axt.t), key="ps.weight.ordering", payload=pay, timeout=60, describe="daughter-system mass of factor i >= the minimal one used in w_max")
+        ss.prove("ps.weight.same_bachelor[n=%d,%d]" % (n, i), F, far(bt.t, bxt.t, 0), key="ps.weight.ordering", payload=pay, timeout=60)
+        ss.prove("ps.weight.physical[n=%d,%d]" % (n, i), F, T.bor(T.lt(Mt.t, (at + bt).t), T.le(Mt.t, T.ZERO), T.lt(axt.t, T.ZERO)), key="ps.weight.ordering", payload=pay, timeout=60, describe="factor i is evaluated at or above its threshold")
         q, qm = simp(F, sc(r), sc(rx))
         qs.append(q)
         qmax.append(qm)
-    for i, (q, qm) in enumerate(zip(qs, qmax)):
-        ss.prove("ps.weight.factor_bounded[n=%d,%d]" % (n, i), F, T.gt(q.t, qm.t), key="ps.weight.factor_bounded", payload=pay, timeout=120,
-                 describe="q(M_{i+1}, M_i, m) <= q(max M_{i+1}, min M_i, m): the factor set_decay put into w_max")
-        ss.prove("ps.weight.factor_nonnegative[n=%d,%d]" % (n, i), F, T.lt(q.t, T.ZERO), key="ps.weight.factor_bounded", payload=pay, timeout=60)
     prod = qs[0]
     for q in qs[1:]:
         prod = prod * q
@@ -205,11 +265,7 @@ def job_weight(ss, n):
              describe="0 <= importance factor <= 1")
     wv = simp(F, sc(w))
     ss.prove("ps.weight.with_importance[n=%d]" % n, F, far(wv.t, (impv * wn).t, 0), key="ps.weight.is_product", payload=pay, timeout=120)
-    if n == 3:
-        # the exact statement, posed directly (the only source of violations)
-        ss.prove("ps.weight.at_most_one[n=3]", F, T.gt(wv.t, T.ONE), key="ps.weight.at_most_one", payload=pay, timeout=120, describe="acceptance weight <= 1 (exact statement)")
     ss.witness("ps.weight.reach[n=%d]" % n, F)
-    ss.mutant("ps.weight.mutant[n=%d]" % n, F, T.gt(qmax[0].t, qs[0].t))
 
 
 def job_flat(ss, n):
@@ -223,6 +279,7 @@ def job_flat(ss, n):
     mass = gen.generate_mass(1)
     us = list(symtf.STATE.random_log)
     imp = gen.mass_importances(mass)
+    _open_variates()
     F = facts()
     pay = _pay("flat", n=n)
     mt = [term_of(x.arr.reshape(-1)[0]) for x in mass]
